@@ -18,13 +18,65 @@ from .common import Machinery
 asce = R.asceprovider
 exceptions = R.exceptions
 
+import hashlib
+
+
+def _canon(elems, data):
+    """Token for the content of a DIMSE message: the command elements that carry a value (group length apart) and the
+    data set bytes.  Computed three times independently - from the object handed to send(), from the bytes on the
+    wire, from the object receive() returns - and bound together by the specification."""
+    h = hashlib.sha1()
+    for t, v in sorted(elems):
+        v = bytes(v).rstrip(b'\0 ')
+        if t == 0 or not v:
+            continue
+        h.update(b'%08x:%d:' % (t, len(v)) + v)
+    h.update(b'|data|' + bytes(data or b''))
+    return [int(h.hexdigest()[:6], 16)]
+
+
+def _data_of(obj, received):
+    """Data set bytes of a message object without disturbing it.  A received file-backed data set is a Part-10 file:
+    preamble and meta header are not part of what was transmitted."""
+    ds = obj.data_set
+    if ds is None:
+        return b''
+    if isinstance(ds, (bytes, bytearray)):
+        return bytes(ds)
+    if hasattr(ds, 'read') and hasattr(ds, 'seek') and hasattr(ds, 'tell'):
+        pos = ds.tell()
+        try:
+            if received:
+                ds.seek(0)
+            raw = ds.read()
+        finally:
+            ds.seek(pos)
+        if received and raw[128:132] == b'DICM':
+            import struct
+            # (0002,0000) UL 4: group length of the meta header, explicit VR little endian
+            if raw[132:136] == b'\x02\x00\x00\x00':
+                n = struct.unpack('<I', raw[140:144])[0]
+                return raw[144 + n:]
+        return raw
+    return b'?'
+
+
+def digest_of_object(msg, received=False):
+    try:
+        elems = cmdset.read(cmdset.encode_dataset(msg.command_set))
+        return _canon(elems, _data_of(msg, received))
+    except Exception as exc:      # noqa - an object that cannot even be walked gets a token nothing else will have
+        return [0]
+
+
 _REQ = ('request', 'abort')
 _ACC = ('accept', 'reject', 'abort')
 _BASE = ('send', 'receive', 'release')
 
 
 class LifeTap(object):
-    def __init__(self):
+    def __init__(self, content=True):
+        self.content = content    # bind the content of every DIMSE message (token from object / wire / object)
         self.logs = {}            # id(association) -> list of events
         self.side = {}            # id(association) -> 'Rq' | 'Ac'
         self.objs = {}            # id(association) -> association (kept alive so that ids stay unique)
@@ -74,9 +126,10 @@ class LifeTap(object):
             return f
 
         def send(orig):
-            def f(self, *a, **k):
-                r = orig(self, *a, **k)
-                tap._log(self, 'AcRespond' if isinstance(self, asce.AssociationAcceptor) else 'RqSend')
+            def f(self, dimse_msg, pc_id):
+                d = digest_of_object(dimse_msg) if tap.content else []
+                r = orig(self, dimse_msg, pc_id)
+                tap._log(self, 'AcRespond' if isinstance(self, asce.AssociationAcceptor) else 'RqSend', f=d)
                 return r
             return f
 
@@ -96,7 +149,10 @@ class LifeTap(object):
                 except exceptions.DCMTimeoutError:
                     tap._log(self, 'AcTimeout' if acc else 'RqTimeout')
                     raise
-                tap._log(self, 'AcRecv' if acc else 'RqRecv', res='PD', f=[])
+                d = []
+                if tap.content and isinstance(r, tuple):
+                    d = digest_of_object(r[0], received=True)
+                tap._log(self, 'AcRecv' if acc else 'RqRecv', res='PD', f=d)
                 return r
             return f
 
@@ -180,7 +236,7 @@ class LifeTap(object):
                     ac_log = lg
             if rq_log is None:
                 continue                     # not a library requester (raw peer): nothing to validate here
-            r2a, a2r = messages(R.pdus_of(link['log'], 'R')), messages(R.pdus_of(link['log'], 'A'))
+            r2a, a2r = messages(R.pdus_of(link['log'], 'R'), self.content), messages(R.pdus_of(link['log'], 'A'), self.content)
             out.append({'rq': rq_log, 'ac': ac_log or [], 'r2a': r2a, 'a2r': a2r,
                         'svc': len([e for e in (ac_log or []) if e['ev'] == 'AcRecv' and e.get('res') == 'PD']),
                         'entered': any(e['ev'] == 'RqAssocInd' and e.get('res') == 'AC' for e in rq_log),
@@ -188,18 +244,28 @@ class LifeTap(object):
         return out
 
 
-def messages(pdus):
+def messages(pdus, content=False):
     """PDUs one side wrote -> tokens of AssocLife: every PDU is a token, except that the P-DATA-TF PDUs of ONE DIMSE
-    message count as one 'PD' (the model's unit is the message handed to send()).  A message left incomplete at the
-    end of the stream (the write failed half-way) still counts: the attempt was made."""
+    message count as one 'PD' (the model's unit is the message handed to send()), carrying the content token computed
+    from the bytes on the wire.  A message left incomplete at the end of the stream (the write failed half-way) still
+    counts: the attempt was made."""
     out = []
-    cmd, in_msg, expect_data = b'', False, False
+    st = {'cmd': b'', 'data': b'', 'in': False}
+
+    def close(complete=True):
+        f = []
+        if content:
+            try:
+                f = _canon(cmdset.read(st['cmd']), st['data']) if complete else [1]
+            except cmdset.CmdError:
+                f = [2]
+        out.append({'k': 'PD', 'f': f})
+        st['cmd'], st['data'], st['in'] = b'', b'', False
     for p in pdus:
         k = p['k']
         if k != 'PD':
-            if in_msg:
-                out.append({'k': 'PD', 'f': []})
-                cmd, in_msg, expect_data = b'', False, False
+            if st['in']:
+                close(False)
             f = []
             if k == 'RJ':
                 f = [p['result'], p['source'], p['reason']]
@@ -212,25 +278,23 @@ def messages(pdus):
             if not val:
                 continue
             h, body = val[0], val[1:]
-            in_msg = True
+            st['in'] = True
             if h & 1:
-                cmd += body
+                st['cmd'] += body
                 if h & 2:
                     try:
-                        d = dict(cmdset.read(cmd))
+                        d = dict(cmdset.read(st['cmd']))
                         ds_type = cmdset.as_int(d[cmdset.TAG_DS_TYPE]) if cmdset.TAG_DS_TYPE in d else 0x0101
-                    except (cmdset.CmdError, KeyError, Exception):     # noqa
+                    except Exception:     # noqa
                         ds_type = 0x0101
                     if ds_type == 0x0101:
-                        out.append({'k': 'PD', 'f': []})
-                        cmd, in_msg, expect_data = b'', False, False
-                    else:
-                        expect_data = True
-            elif h & 2:
-                out.append({'k': 'PD', 'f': []})
-                cmd, in_msg, expect_data = b'', False, False
-    if in_msg:
-        out.append({'k': 'PD', 'f': []})
+                        close()
+            else:
+                st['data'] += body
+                if h & 2:
+                    close()
+    if st['in']:
+        close(False)
     return out
 
 
